@@ -42,6 +42,31 @@ CHECKS = {
              "and 'malformed content fails the step' are exercised through task.rs in the C09/C16 legs.",
         technique="Coq proof (grammar round-trip + totality) over a hand model + exhaustive small-scope differential correspondence",
     ),
+    "C07": dict(
+        category="proof",
+        text="Coq theorems over the model of db.rs: for every log a crash-free run can write and every byte prefix of it, db::open "
+             "succeeds, keeps exactly the records wholly inside the prefix (a prefix of what was written, never altered or "
+             "re-attributed), truncates the file to them, and any record appended afterwards round-trips (so every later "
+             "invocation loads the log) + the real writer/reader driven over EVERY byte prefix of logs the real writer produced "
+             "(open, append, reopen) and truncation of the real .n2_db between invocations of run::build. The pinned tree violated "
+             "it (F5/F6, repaired by a fix: commit; witness C07_pinned_refuted).",
+        design_ref="DESIGN.md §6 C07",
+        note="Crash model: the file after a crash is a byte prefix of the crash-free file (append-only writes). Durability without "
+             "fsync, block reordering and non-prefix garbage are outside the model.",
+        technique="Coq proof (prefix theorem over the record codec) + exhaustive truncation sweep against the real code",
+    ),
+    "C08": dict(
+        category="proof",
+        text="Coq theorems over the model of db.rs: writer/reader round trip within the format's bounds (latest applicable record "
+             "wins), a record is applied only if every output it names is produced by that one step, loading is invariant under "
+             "renumbering of steps (depends only on the name -> producer relation) + differential check of the real db::Writer / "
+             "reader on random and boundary record shapes under the same, a renumbered and an output-moved manifest, and "
+             "semantics-preserving manifest rewrites between two real builds (null second build). Pinned tree: F9 repaired "
+             "(witness C08_pinned_attribution_refuted); F7 (format limits) known.",
+        design_ref="DESIGN.md §6 C08",
+        note="The manifest hash value (hash.rs) is exercised by the history checks; its collision behaviour is an assumption (H-hash).",
+        technique="Coq proof (codec round trip, attribution, renumbering invariance) + differential correspondence",
+    ),
 }
 
 PENDING_REASON = "check not built yet in this round (work in progress, see DESIGN.md §10); not claimed"
